@@ -9,12 +9,17 @@ import (
 	"verifharness/vt"
 )
 
+// Unit cases: hand-written programs that pin down (a) the bytecode encoding of try/catch/finally, calls, subroutines and
+// native calls, (b) the facts about neo-go the model relies on outside the subject of the property: which failures are
+// catchable, required call flags, NeoVM's single pending exception. Each case states the expected final VM state on the
+// chain; the model must agree with the chain (verdict nil), except for the two listed findings.
+
 func unitCase(p Program) Case {
 	return Case{Chain: ck.ChainCfg{Profile: "V1C1"}, Prog: p, Sender: 2, Deployer: 1, PreFee: -1, PreBlock: -1, Nonce: 42, TimeD: 1000}
 }
 
 func show(t *testing.T, name string, p Program) (*outcome, error) {
-	out, err := runCase(unitCase(p), &vt.Obs{})
+	out, err := runCase(unitCase(p), &vt.Obs{}, true)
 	if out == nil {
 		t.Fatalf("%s: %v", name, err)
 	}
@@ -27,8 +32,7 @@ func show(t *testing.T, name string, p Program) (*outcome, error) {
 		fmt.Fprintf(&sb, "   after: stor=%v bal=%v fee=%d blocked=%v deployed=%v\n", out.after.stor, out.after.bal, out.after.fee, out.after.blocked, out.after.deployed)
 	}
 	if out.mdl != nil {
-		fmt.Fprintf(&sb, "   model=%s (%s) quirk=%q labels=%v\n", haltStr(out.modelOK), out.mdl.why, out.mdl.quirk, sortedKeys(out.mdl.labels))
-		fmt.Fprintf(&sb, "   expected: stor=%v bal=%v fee=%d blocked=%v deployed=%v notes=%d\n", out.expected.stor, out.expected.bal, out.expected.fee, out.expected.blocked, out.expected.deployed, len(out.expected.notes))
+		fmt.Fprintf(&sb, "   model=%s (%s) quirk=%q leak=%q labels=%v\n", haltStr(out.modelOK), out.mdl.why, out.mdl.quirk, out.mdl.leak, sortedKeys(out.mdl.labels))
 	}
 	fmt.Fprintf(&sb, "   verdict: %v\n", err)
 	t.Log(sb.String())
@@ -51,4 +55,82 @@ var (
 	ntf   = Op{K: "notify"}
 	throw = Op{K: "throw"}
 	call  = func(sel, flags int) Op { return Op{K: "call", A: sel, B: flags} }
+	sub   = func(o ...Op) Op { return Op{K: "sub", Body: o} }
+	ct    = func(o ...Op) Contract { return Contract{Methods: one(o...), Fund: 2} }
+	entry = ops(call(0, 0))
 )
+
+type unit struct {
+	name   string
+	p      Program
+	halt   bool
+	events int  // expected number of notifications when halted (-1: not checked)
+	known  bool // shape of a listed finding: the verdict is not asserted
+}
+
+func TestUnit(t *testing.T) {
+	cases := []unit{
+		// --- catchable vs uncatchable
+		{"throw in callee is caught by the caller; callee's write and notification undone; before/after kept",
+			Program{Contracts: []Contract{ct(put(0, 1), try(ops(call(0, 0)), ops(ntf)), read(0)), ct(put(0, 2), ntf, throw)}, Entry: entry}, true, 2, false},
+		{"ABORT in callee under a try: uncatchable", Program{Contracts: []Contract{ct(put(0, 1), try(ops(call(0, 0)), ops(ntf))), ct(put(0, 2), Op{K: "abort"})}, Entry: entry}, false, 0, false},
+		{"gas exhaustion in callee under a try: uncatchable", Program{Contracts: []Contract{ct(put(0, 1), try(ops(call(0, 0)), ops(ntf))), ct(put(0, 2), Op{K: "burn"})}, Entry: entry}, false, 0, false},
+		{"native method failure (bad value) under a try: uncatchable", Program{Contracts: []Contract{ct(put(0, 1), try(ops(Op{K: "fee", B: 3}), ops(ntf)))}, Entry: entry}, false, 0, false},
+		{"syscall failure (Put without WriteStates) under a try: uncatchable", Program{Contracts: []Contract{ct(put(0, 1), try(ops(call(0, 7)), ops(ntf))), ct(put(0, 2))}, Entry: entry}, false, 0, false},
+		{"call of a missing contract under a try: uncatchable", Program{Contracts: []Contract{ct(try(ops(Op{K: "calltiny"}), ops(ntf)))}, Entry: entry}, false, 0, false},
+		{"second deployment of the same contract under a try: uncatchable", Program{Contracts: []Contract{ct(Op{K: "deploy"}, try(ops(Op{K: "deploy"}), ops(ntf)))}, Entry: entry}, false, 0, false},
+		{"call of a blocked contract under a try: uncatchable", Program{Contracts: []Contract{ct(Op{K: "block", A: 3}, try(ops(call(0, 0)), ops(ntf))), ct(ntf)}, Entry: entry}, false, 0, false},
+		{"uncaught throw faults", Program{Contracts: []Contract{ct(put(0, 1), throw)}, Entry: entry}, false, 0, false},
+		// --- flags
+		{"ReadOnly|AllowNotify callee may notify and read", Program{Contracts: []Contract{ct(call(0, 5)), {Methods: one(ntf, read(0)), Seed: []int{0}}}, Entry: entry}, true, 2, false},
+		{"States|AllowCall callee may write but not notify", Program{Contracts: []Contract{ct(call(0, 6)), ct(put(0, 1), ntf)}, Entry: entry}, false, 0, false},
+		{"States|AllowCall callee: setFeePerByte and unblockAccount allowed", Program{Contracts: []Contract{ct(call(0, 6)), ct(Op{K: "fee", B: 1}, Op{K: "unblock"})}, Entry: entry}, true, 0, false},
+		{"States|AllowCall callee: blockAccount needs AllowNotify", Program{Contracts: []Contract{ct(call(0, 6)), ct(Op{K: "block"})}, Entry: entry}, false, 0, false},
+		{"States|AllowCall callee: transfer needs all flags", Program{Contracts: []Contract{ct(call(0, 6)), ct(Op{K: "gas", B: 1})}, Entry: entry}, false, 0, false},
+		// --- try / catch / finally encodings
+		{"finally after normal completion", Program{Contracts: []Contract{ct(tryF(ops(put(0, 1)), ops(ntf)), read(0))}, Entry: entry}, true, 2, false},
+		{"catch then finally then continue", Program{Contracts: []Contract{ct(tryCF(ops(put(0, 1), throw), ops(ntf), ops(ntf)), read(0))}, Entry: entry}, true, 3, false},
+		{"finally without catch rethrows", Program{Contracts: []Contract{ct(try(ops(tryF(ops(throw), ops(ntf)), put(0, 1)), ops(ntf)), read(0))}, Entry: entry}, true, 3, false},
+		{"throw in catch runs finally, then propagates", Program{Contracts: []Contract{ct(try(ops(tryCF(ops(throw), ops(ntf, throw), ops(ntf))), ops(ntf)))}, Entry: entry}, true, 3, false},
+		{"throw in finally replaces the pending exception", Program{Contracts: []Contract{ct(try(ops(tryF(ops(throw), ops(ntf, throw))), ops(ntf)))}, Entry: entry}, true, 2, false},
+		{"nested try: inner catches, outer untouched", Program{Contracts: []Contract{ct(try(ops(try(ops(throw), ops(ntf)), ntf), ops(put(0, 1))))}, Entry: entry}, true, 2, false},
+		{"pending exception cleared inside finally: ENDFINALLY has no end offset", Program{Contracts: []Contract{ct(tryF(ops(throw), ops(try(ops(throw), nil))))}, Entry: entry}, false, 0, false},
+		{"exception crosses a subroutine", Program{Contracts: []Contract{ct(try(ops(sub(put(0, 1), throw)), ops(ntf)), read(0))}, Entry: entry}, true, 2, false},
+		{"try in the entry script", Program{Contracts: []Contract{ct(put(0, 1), ntf, throw)}, Entry: ops(try(ops(call(0, 0)), nil))}, true, 0, false},
+		// --- rollback shapes
+		{"depth 3: A try{B} , B calls C (no try), C writes and throws", Program{Contracts: []Contract{ct(put(0, 1), try(ops(call(0, 0)), ops(ntf)), read(0)), ct(put(0, 2), ntf, call(0, 0), put(1, 1)), ct(put(0, 3), ntf, throw)}, Entry: entry}, true, 2, false},
+		{"call from a subroutine under a try of the calling context", Program{Contracts: []Contract{ct(try(ops(sub(call(0, 0))), ops(ntf)), read(0)), ct(put(0, 2), Op{K: "fee", B: 1}, ntf, throw)}, Entry: entry}, true, 2, false},
+		{"delete of a persisted key in a failed callee is undone", Program{Contracts: []Contract{ct(try(ops(call(0, 0)), nil), call(1, 0)), {Methods: []Method{{Ops: ops(del(0), put(1, 2), throw)}, {Ops: ops(read(0), read(1))}}, Seed: []int{0, 1}}}, Entry: entry}, true, 2, false},
+		{"native state changed in a failed callee is undone (policy, blocked, balance, deployment)", Program{Contracts: []Contract{ct(try(ops(call(0, 0)), nil), Op{K: "deploy"}, Op{K: "calltiny"}), ct(try(ops(sub(Op{K: "fee", B: 1}, Op{K: "block"}, Op{K: "gas", B: 1}, Op{K: "deploy"}, throw)), ops(throw)))}, Entry: ops(try(entry, nil))}, true, -1, false},
+		{"successful callee under try is committed", Program{Contracts: []Contract{ct(try(ops(call(0, 0)), ops(ntf)), read(0)), ct(put(0, 2), Op{K: "fee", B: 1}, ntf)}, Entry: entry}, true, 2, false},
+		{"payment callback runs, its exception is uncatchable", Program{Contracts: []Contract{ct(try(ops(Op{K: "gas", A: 2, B: 1}), ops(ntf))), {Methods: one(ntf), Pay: ops(put(0, 1), throw)}}, Entry: entry}, false, 0, false},
+		{"payment callback effects are kept", Program{Contracts: []Contract{ct(try(ops(Op{K: "gas", A: 2, B: 1}), ops(ntf))), {Methods: one(ntf), Pay: ops(put(0, 1), ntf)}}, Entry: entry}, true, 2, false},
+		{"all native ops", Program{Contracts: []Contract{ct(Op{K: "fee", B: 1}, Op{K: "block", A: 0}, Op{K: "block", A: 2}, Op{K: "gas", A: 0, B: 1}, Op{K: "gas", A: 2, B: 2}, Op{K: "deploy", A: 1}, Op{K: "calltiny", A: 1}, Op{K: "unblock", A: 0}, sub(put(1, 3), ntf)),
+			{Methods: one(ntf), Pay: ops(put(2, 1), ntf), Seed: []int{0, 1}}}, Entry: entry}, true, 6, false},
+		{"void native call completing while an exception is pending leaves no return value", Program{Contracts: []Contract{ct(tryF(ops(throw), ops(Op{K: "fee", B: 1})))}, Entry: ops(try(entry, nil))}, false, 0, false},
+		// --- listed findings
+		{"KNOWN callee completes while an exception is pending under an outer try: its effects are dropped", Program{Contracts: []Contract{ct(try(ops(tryF(ops(throw), ops(call(0, 0)))), ops(ntf)), read(0)), ct(put(0, 2), ntf)}, Entry: entry}, true, -1, true},
+		{"KNOWN same, the only live handler of the caller is a catch block with finally", Program{Contracts: []Contract{ct(tryCF(ops(throw), ops(tryF(ops(throw), ops(call(0, 0)))), ops(Op{K: "deploy"}))), ct(Op{K: "deploy"})}, Entry: ops(try(entry, nil))}, true, -1, true},
+		// --- repaired finding (f441102): callee fails under a catch block that has a finally block
+		{"callee fails under a catch block with finally: the finally block must not see its deployment", Program{Contracts: []Contract{ct(tryCF(ops(throw), ops(call(0, 0)), ops(Op{K: "deploy"}))), ct(Op{K: "deploy"}, throw)}, Entry: ops(try(entry, nil))}, true, 0, false},
+		{"callee fails under a catch block with finally: the finally block must not find its contract", Program{Contracts: []Contract{ct(tryCF(ops(throw), ops(call(0, 0)), ops(Op{K: "calltiny"}))), ct(Op{K: "deploy"}, throw)}, Entry: ops(try(entry, nil))}, false, 0, false},
+	}
+	for _, u := range cases {
+		out, err := show(t, u.name, u.p)
+		if u.known {
+			if err == nil {
+				t.Logf("%s: listed finding no longer reproduces", u.name)
+			}
+			continue
+		}
+		if out.halted != u.halt {
+			t.Errorf("%s: chain says %s, the unit case expects %s", u.name, haltStr(out.halted), haltStr(u.halt))
+		}
+		if err != nil {
+			t.Errorf("%s: model and chain disagree: %v", u.name, err)
+		}
+		if u.halt && u.events >= 0 && len(out.events) != u.events {
+			t.Errorf("%s: %d notifications, expected %d", u.name, len(out.events), u.events)
+		}
+	}
+}
